@@ -104,6 +104,16 @@ Theorem C08_consensus_benchmark_between_data_sources : forall ver base ss f v,
 Proof. exact consensus_benchmark_between_data_sources. Qed.
 Print Assumptions C08_consensus_benchmark_between_data_sources.
 
+(* v1: the same, with the observations a correct node's parser keeps (block lists well-formed) *)
+Theorem C08_consensus_benchmark1_between_data_sources : forall ss f v, senders1_ok ss ->
+  let txs := map (fun pt => (q_bm (fst pt), snd pt)) (received_v1 ss) in
+  (faulty_count (tvalid txs) < honest_count (tvalid txs))%nat ->
+  consensus_price (map fst txs) f = Ok v ->
+  exists n1 p1 d1 n2 p2 d2 lo hi, In (Correct1 n1 p1 d1) ss /\ In (Correct1 n2 p2 d2) ss /\
+                            d1_bm d1 = Some lo /\ d1_bm d2 = Some hi /\ lo <= v <= hi.
+Proof. exact consensus_benchmark1_between_data_sources. Qed.
+Print Assumptions C08_consensus_benchmark1_between_data_sources.
+
 Theorem C08_consensus_link_fee_between_computed_fees : forall ver base ss f v,
   ver = 2 \/ ver = 3 \/ ver = 4 -> senders_ok ss ->
   let txs := map (fun pt => (p_link (fst pt), snd pt)) (received ver base ss) in
